@@ -101,7 +101,8 @@ T2 in_between(T1 min, T2 x, T3 max)
 inline int ideal_num_threads(int64_t sieve_limit, int threads, int64_t thread_threshold)
 {
   thread_threshold = std::max((int64_t) 1, thread_threshold);
-  int64_t max_threads = ceil_div(sieve_limit, thread_threshold);
+  // Same as ceil_div(sieve_limit, thread_threshold) but cannot overflow
+  int64_t max_threads = sieve_limit / thread_threshold + (sieve_limit % thread_threshold > 0);
   return in_between(1, threads, max_threads);
 }
 
